@@ -418,6 +418,18 @@ func streamHelpers(seed uint64, n int, driver string) (*Summary, error) {
 			}
 			if got != want {
 				sum.addMismatch("C16", Mismatch{Case: lines[c], Impl: got, Model: want, What: "schema objects are not what the set semantics says (" + what + ")"})
+				// a schema object that runs FEWER field schemas or tests than it declares skips constraints (C01)
+				if g, err1 := sx.Parse(got); err1 == nil {
+					if w, err2 := sx.Parse(want); err2 == nil && len(g.List) == len(w.List) {
+						for k := range g.List {
+							if len(g.List[k].List) == 2 && len(w.List[k].List) == 2 &&
+								(len(g.List[k].List[0].List) < len(w.List[k].List[0].List) || len(g.List[k].List[1].List) < len(w.List[k].List[1].List)) {
+								sum.addMismatch("C01", Mismatch{Case: lines[c], Impl: got, Model: want, What: fmt.Sprintf("schema object %d runs fewer field schemas / tests than it declares: a declared constraint is skipped because of an earlier builder call (%s)", k, what)})
+								break
+							}
+						}
+					}
+				}
 			}
 		}
 		if nontriv[c] && !distinct[lines[c]] {
